@@ -14,3 +14,7 @@ pub mod cursor;
 pub mod spsc;
 #[cfg(feature = "alloc")]
 pub mod worker;
+
+#[cfg(all(test, loom, aws_s2n_quic_verif))]
+#[path = "/verif/engines/loommc/core_sync.rs"]
+mod verif_loommc;
